@@ -181,34 +181,32 @@ func flRun(base string, ca interface{}, pool interface{}, f []string, o *Out, px
 		return cl
 	}
 	// pre-state
-	preReqs := int64(0)
 	if pre == "fresh" || pre == "stale" {
 		cl := one()
 		<-cl.done
-		preReqs = 1
 		if pre == "stale" {
 			p.VerifCache().(cache.VerifHooks).VerifShiftClock(61 * time.Second)
 		}
 	}
 	originCount.Store(0)
 	gated.Store(true)
-	if evict {
+	// one yield handler for the whole run: count the callers that have reached group.Do ("flight.beforeDo": the
+	// positive signal that a request is about to join the flight), and perform the window operation, once, at the
+	// hand-over ("flight.afterDo")
+	var atDo atomic.Int64
+	{
 		var once sync.Once
 		key := cache.MakeFromRequest(&http.Request{Method: "GET", Host: ou.Host, URL: &url.URL{Path: "/r0"}})
 		proxy.VerifYield = func(point string) {
-			if point == "flight.afterDo" {
-				once.Do(func() {
-					p.VerifCache().(interface{ Delete(cache.CacheKey) error }).Delete(key)
-				})
-			}
-		}
-		defer func() { proxy.VerifYield = nil }()
-	}
-	if expireAtHandover {
-		var once sync.Once
-		proxy.VerifYield = func(point string) {
-			if point == "flight.afterDo" {
-				once.Do(func() { p.VerifCache().(cache.VerifHooks).VerifShiftClock(61 * time.Second) })
+			switch point {
+			case "flight.beforeDo":
+				atDo.Add(1)
+			case "flight.afterDo":
+				if evict {
+					once.Do(func() { p.VerifCache().(interface{ Delete(cache.CacheKey) error }).Delete(key) })
+				} else if expireAtHandover {
+					once.Do(func() { p.VerifCache().(cache.VerifHooks).VerifShiftClock(61 * time.Second) })
+				}
 			}
 		}
 		defer func() { proxy.VerifYield = nil }()
@@ -233,9 +231,7 @@ func flRun(base string, ca interface{}, pool interface{}, f []string, o *Out, px
 	for i := 1; i < n; i++ {
 		clients[i] = one()
 	}
-	arrived := waitFor(func() bool {
-		return metrics.Global.Requests.HTTPProxyRequests.Get() >= int64(n)+preReqs
-	})
+	arrived := waitFor(func() bool { return atDo.Load() >= int64(n) })
 	time.Sleep(3 * time.Millisecond) // the followers are now (or within microseconds) blocked in group.Do
 	// hang-ups
 	gone := map[int]bool{}
@@ -263,7 +259,7 @@ func flRun(base string, ca interface{}, pool interface{}, f []string, o *Out, px
 		clients = append(clients, one())
 	}
 	if late > 0 {
-		if !waitFor(func() bool { return metrics.Global.Requests.HTTPProxyRequests.Get() >= int64(n+late)+preReqs }) {
+		if !waitFor(func() bool { return atDo.Load() >= int64(n+late) }) {
 			arrived = false
 		}
 		time.Sleep(3 * time.Millisecond)
@@ -283,7 +279,16 @@ func flRun(base string, ca interface{}, pool interface{}, f []string, o *Out, px
 			res[i] = "gone"
 		}
 	}
-	time.Sleep(5 * time.Millisecond)
+	// handlers of clients that hung up may still be running (on a tunnel the proxy does not notice the hang-up):
+	// the origin's request count is final once it has been stable for a while
+	for last, stable := int64(-1), 0; stable < 10; {
+		time.Sleep(5 * time.Millisecond)
+		if cur := originCount.Load(); cur == last {
+			stable++
+		} else {
+			last, stable = cur, 0
+		}
+	}
 	o.Count("disc:" + strings.TrimRight(disc, "0123456789"))
 	o.Count("pre:" + pre)
 	o.Count("kind:" + kind)
